@@ -157,6 +157,7 @@ type World struct {
 
 	FaultsFired [5]int
 	HomeOf      map[int]int               // fn id -> index of the scope it was provided to (set by the runner on accepted Provide)
+	NestedProv  []NestedProv              // registrations issued by user code from inside an Invoke
 	Online      func(w *World, ev *Event) // optional hook run at fn-enter
 }
 
@@ -685,9 +686,48 @@ func (w *World) call(f *Func, ft reflect.Type, args []reflect.Value) []reflect.V
 	if f.Reenter && !(f.ReCB && f.Callback) && f.Role != RoleInv && fault == FaultNone {
 		w.reenter(f)
 	}
+	if f.ThenProvide > 0 && f.Role == RoleInv && fault == FaultNone {
+		w.thenProvide(f)
+	}
 	w.Open = w.Open[:len(w.Open)-1]
 	w.emit(Event{Kind: EvExit, Fn: f.ID, Exec: exec, Out: res, Minted: c.minted})
 	return out
+}
+
+// NestedProv records a Provide issued by an invoked function's body.
+type NestedProv struct {
+	Op, Fn, Scope int
+	Facts         ErrFacts
+}
+
+// thenProvide: the invoked function registers a constructor before returning.
+func (w *World) thenProvide(f *Func) {
+	idx := f.ThenProvide - 1
+	if idx < 0 || idx >= len(w.H.Funcs) || f.ThenScope < 0 || f.ThenScope >= len(w.Scopes) || w.H.Funcs[idx].Role != RoleCtor {
+		return
+	}
+	g := &w.H.Funcs[idx]
+	saved := append([]int(nil), w.Open...)
+	fv := w.FnValue(idx)
+	opts := w.provideOpts(g, nil)
+	err, facts := w.guard(func() error {
+		if f.ThenScope == 0 {
+			return w.C.Provide(fv, opts...)
+		}
+		return w.Scopes[f.ThenScope].Provide(fv, opts...)
+	})
+	w.Open = saved
+	if err == nil && !facts.Escaped {
+		if w.HomeOf == nil {
+			w.HomeOf = map[int]int{}
+		}
+		w.HomeOf[g.ID] = f.ThenScope
+		if g.Export {
+			w.HomeOf[g.ID] = 0
+		}
+	}
+	w.NestedProv = append(w.NestedProv, NestedProv{Op: w.CurOp, Fn: idx, Scope: f.ThenScope, Facts: facts})
+	w.emit(Event{Kind: EvNested, Fn: idx, Exec: 100 + int(verdictOf(facts))})
 }
 
 // reenter: re-entrant user code. The constructor's body asks the container (the
